@@ -416,6 +416,35 @@ def r3(R):
             R.count(stats)
             for v in vs:
                 R.violation(node, v.message, g, v.path)
+    # --- the "object does not exist" error is decided for the accepted
+    #     revision only, never for a newer record that is merely walked past
+    accept_nodes = {n.id for n, rl in tests}
+
+    def edge_a(nd, st, lab, tgt):
+        if nd.id in accept_nodes and lab in ('T', 'F'):
+            op = type(nd.ast.ops[0])
+            rec_left = [rl for n_, rl in tests if n_.id == nd.id][0]
+            lt = (op in (ast.Lt, ast.LtE)) == rec_left
+            accepted = (lab == 'T') == lt
+            return 'accepted' if accepted else 'older'
+        return st
+
+    def at_a(nd, st):
+        if nd.kind == 'raise' and nd.frame.parent is None and \
+                nd.info.get('raised') and any(
+                    'POSKeyError' in x for x in nd.info['raised']) and \
+                st != 'accepted':
+            return Violation(
+                'loadBefore raises POSKeyError while it is still walking '
+                'back over records newer than the bound: an un-creation or '
+                'deletion record that lies AFTER the requested point makes '
+                'the object unloadable for every earlier snapshot')
+        return st
+
+    vs_a, stats_a = explore(g, 'start', at=at_a, edge=edge_a)
+    R.count(stats_a)
+    for v in vs_a:
+        R.violation(v.node, v.message, g, v.path)
     # --- FileStorage.loadSerial: equality
     f2 = R.method(fs, 'loadSerial')
     g2, b2, F2 = R.cfg(f2, fs, max_depth=0)
@@ -560,6 +589,12 @@ def r5(R):
 
 # ---------------------------------------------------------------- C04.R6
 
+CONDITIONAL_ATTRS_OK = {
+    (FS, '_tfmt'): 'exists only for writable storages; its only reader '
+                   '(_undoDataInfo) is reached from undo, which refuses '
+                   'read-only storages first (C09.R2)',
+}
+
 CONCRETE = [
     FS, 'ZODB.FileStorage.FileStorage.FileIterator',
     'ZODB.FileStorage.FileStorage.TransactionRecordIterator',
@@ -595,7 +630,7 @@ def setattr_names(R, cls):
 
 
 @rule('C04.R6', 'every attribute and helper the query classes use on '
-      'themselves exists', props=['C17'], min_instances=10)
+      'themselves exists', props=['C17', 'C16', 'C07'], min_instances=10)
 def r6(R):
     for q in CONCRETE:
         cls = R.prog.cls(q)
@@ -651,3 +686,111 @@ def r6(R):
                                     'that reaches it fails with '
                                     'AttributeError' % (f.short, n.attr))
         R.instance(cls.name, methods=len(reach), self_attribute_uses=used)
+        # attributes assigned only on some paths of the constructor, with no
+        # class-level default, that other methods read unconditionally
+        init = R.prog.find_method(cls, '__init__')
+        if init is None:
+            continue
+        gi, bi, Fi = R.cfg(init[0], cls, max_depth=1)
+        init_attrs = {}
+        for a, fl in facts.items():
+            fns = {fx.name for kind, pl, fx, nn in fl}
+            if fns == {'__init__'}:
+                init_attrs[a] = fl
+        has_default = set()
+        for k in mro:
+            has_default |= set(k.attrs) | set(k.methods) | set(k.monkey)
+        for a in sorted(init_attrs):
+            if a in has_default:
+                continue
+            if (cls.qualname, a) in CONDITIONAL_ATTRS_OK:
+                R.named_exception('%s.%s' % (cls.name, a),
+                                  CONDITIONAL_ATTRS_OK[(cls.qualname, a)])
+                continue
+            # read somewhere outside __init__ without hasattr/getattr
+            readers = []
+            for fx in reach.values():
+                if fx.name == '__init__' or fx.params[:1] != ['self']:
+                    continue
+                for n in walk_local(fx.node):
+                    if isinstance(n, ast.Attribute) and isinstance(
+                            n.value, ast.Name) and n.value.id == 'self' and \
+                            isinstance(n.ctx, ast.Load) and \
+                            mangle(fx.cls, n.attr) == a:
+                        src = ast.unparse(fx.node)
+                        if "hasattr(self, '%s')" % n.attr in src or \
+                                "getattr(self, '%s'" % n.attr in src:
+                            continue        # the reader asks first
+                        readers.append((fx, n))
+            if not readers:
+                continue
+
+            def edge(node, st, lab, tgt, a=a):
+                if lab != 'e':
+                    for op in Fi.ops(node):
+                        if op.kind in ('store',) and op.path == ('self', a):
+                            return True
+                return st
+
+            hit = []
+
+            def at(node, st, hit=hit):
+                if node.id == gi.exit_return and not st:
+                    hit.append(1)
+                return st
+
+            from ..flow import explore as _ex
+            _ex(gi, False, at=at, edge=edge)
+            if hit:
+                fx, n = readers[0]
+                R.violation((fx.module.relpath, fx.qualname,
+                             'self.' + a + ' (set on some constructor paths '
+                             'only)', n.lineno),
+                            '%s reads self.%s, which the constructor assigns '
+                            'on some paths only (and no class-level default '
+                            'exists): for objects built the other way the '
+                            'method fails with AttributeError' % (
+                                fx.short, a))
+
+
+@rule('C04.R7', 'every record a file storage stages links back to the '
+      'object\'s current record (prev pointer from the index) and to the '
+      'transaction being written (position from the committed end)',
+      props=['C06', 'C17'], min_instances=4)
+def r7(R):
+    cls = R.prog.cls(FS)
+    dh = R.prog.cls('ZODB.FileStorage.format.DataHeader')
+    init = R.method(dh, '__init__')
+    params = init.params[1:]
+    R.require('prev' in params and 'tloc' in params,
+              'DataHeader.__init__ parameters changed: %s' % params)
+    iprev, itloc = params.index('prev'), params.index('tloc')
+    n = 0
+    for meth in ('store', 'deleteObject', 'restore', '_txn_undo_write'):
+        f = R.method(cls, meth)
+        g, b, F = R.cfg(f, cls, max_depth=0)
+        for op in F.all_ops():
+            if op.kind == 'call' and op.path and op.path[-1].endswith(
+                    'DataHeader') and len(op.ast.args) > max(iprev, itloc):
+                n += 1
+                prev, tloc = op.ast.args[iprev], op.ast.args[itloc]
+                R.instance('FileStorage.%s: %s' % (
+                    meth, ast.unparse(op.ast)[:70]))
+                pv = provenance(prev, op.node.frame, F)
+                from_index = prov_has(pv, 'call', lambda p: p[-1] in (
+                    '_index_get',) or p[-2:] == ('_index', 'get')) or \
+                    prov_has(pv, 'path', lambda p: p == ('self', '_index'))
+                if not from_index:
+                    R.violation(op.node, 'the previous-revision pointer of '
+                                'the record staged by FileStorage.%s is `%s`, '
+                                'which does not come from the index: the '
+                                'chain of revisions skips the ones in '
+                                'between (loadSerial / loadBefore / history '
+                                'lose them)' % (meth, ast.unparse(prev)))
+                pt = provenance(tloc, op.node.frame, F)
+                if ('path', ('self', '_pos')) not in pt:
+                    R.violation(op.node, 'the transaction pointer of the '
+                                'record staged by FileStorage.%s is `%s`, not '
+                                'the position the transaction will be '
+                                'written at' % (meth, ast.unparse(tloc)))
+    R.require(n >= 4, 'only %d staged record headers found' % n)
